@@ -161,7 +161,12 @@ def run(ctx):
                     if v2 == SCO.AMBIGUOUS:
                         return False
                     outs = {'text': [realise_text(c)], 'api': [realise_api(c)], 'but': realise_but(c)}[how]
-                    return any(hplapi.exc_class(x) != expected_class(v2) for x in outs)
+                    want = expected_class(v2)
+                    if kind == 'invalid-property-accepted':
+                        return want == 'HplSanityError' and any(hplapi.exc_class(x) == 'ok' for x in outs)
+                    if kind == 'valid-property-rejected':
+                        return want == 'ok' and any(hplapi.exc_class(x) == 'HplSanityError' for x in outs)
+                    return any(hplapi.exc_class(x) not in (want, 'ok', 'HplSanityError') for x in outs)
                 m = shrink.shrink_prop(p, fails)
                 return ({'property': A.render_prop(m), 'realisation': how, 'expected': expected_class(SCO.verdict(m)[0]),
                          'reason': SCO.verdict(m)[1]}, feats)
